@@ -18,7 +18,7 @@ from mc.ref import defs
 PROPERTY = "C05"
 LEVEL = "exploration"
 RULE = (
-    "all ordered pairs and all triples of the quantity alphabet (Fraction registry: ==, !=, hash, <,<=,>,>= vs exact physical values; float registry: ordering and == only where the exact values differ); "
+    "all ordered pairs and all triples of the quantity alphabet, in a fresh registry and in registries with a history (queries naming other unit systems, another default system, a default-system round trip) (Fraction registry: ==, !=, hash, <,<=,>,>= vs exact physical values; float registry: ordering and == only where the exact values differ); "
     "bare-number comparisons for every alphabet quantity x {0, 1, 0.0, nan}; Unit ordering for every pair of a 12-unit alphabet; thorough: every same-dimension pair of canonical units at magnitudes {0,1}. "
     "non-trivial = distinct (registry, clause, operands) key with non-identical operands"
 )
